@@ -138,6 +138,8 @@ def norm_text(view):
     """Empty text equals absent text on the wire (C03's normalisation)."""
     out = []
     for d, vs in view:
+        if not vs:
+            continue      # a device entry without properties shows no property: not part of the statement
         out.append((d, tuple((v[0], v[1], v[2], v[3], v[4], tuple((e, (None if x == "" else x)) for e, x in v[5])) for v in vs)))
     return tuple(out)
 
@@ -190,9 +192,65 @@ def converge(focus, client_kind, ops):
     return body
 
 
+def converge_b(op):
+    """Second definition (depth 2): a group and a vector disabled BY DEFINITION,
+    an AtMostOne switch vector, width/sexagesimal number formats."""
+    def body(d: Draw):
+        from indi.routing.router import Router
+        from props.driverlib import variant_b_classes
+        net = Net()
+        B, BBase = variant_b_classes()
+        router = Router()
+        drv = B(router=router)
+        client, conn = single_conn_client(net, router)
+        client.handshake()
+        if not views_equal(norm_text(mask_blobs(client_view(client))), norm_text(mask_blobs(truth_view((drv,), False)))):
+            return verdict(False, "after the handshake the client does not see the device's state")
+        target = d.choice(("HTXT", "AMO", "OFFNUM", "VTXT"), "vector")
+        vec = drv._vectors[target]
+        try:
+            if op == "enable-group":
+                vec.group.enabled = d.bool("on")
+            elif op == "enable-vector":
+                vec.enabled = d.bool("on")
+            elif op == "state":
+                vec.state_ = d.choice(("Idle", "Alert"), "new-state")
+            elif op == "assign":
+                el = list(vec._elements.values())[d.int(0, 1, "element") % len(vec._elements)]
+                kind = vector_kind(vec)
+                if kind == "Text":
+                    el.value = d.str(1, "new-text")
+                elif kind == "Switch":
+                    el.value = "On" if d.bool("new-bit") else "Off"
+                else:
+                    el.value = d.choice((0, -0.25, 12.5, 100), "new-number")
+            elif op == "enable-then-assign":
+                vec.group.enabled = True
+                vec.enabled = True
+                el = list(vec._elements.values())[0]
+                kind = vector_kind(vec)
+                el.value = d.str(1, "new-text") if kind == "Text" else ("On" if kind == "Switch" else d.choice((0, -0.25, 12.5), "new-number"))
+        except Reject:
+            raise
+        except Exception as e:
+            if MODE.trace is not None:
+                note("operation raised", op, target, repr(e))
+            return verdict(False, "an operation raised")
+        want = norm_text(mask_blobs(truth_view((drv,), False)))
+        got = norm_text(mask_blobs(client_view(client)))
+        if MODE.trace is not None:
+            note("target", target, "op", op, "client", got, "truth", want, "parse failures", [repr(x[1]) for x in net.parse_failures][:3])
+        return verdict(views_equal(got, want), "after the operation the client's view differs from the device's true state")
+    return body
+
+
 def conditions(tier):
     out = []
     thorough = tier == "thorough"
+    for op in ("enable-group", "enable-vector", "state", "assign", "enable-then-assign"):
+        out.append(Condition(f"variant-b/{op}", make_condition(converge_b(op), 1, 4, 2),
+                             about=f"second driver definition (group and vector disabled by definition, AtMostOne, %6.2f and %010.6m numbers): {op}",
+                             encodes=ENC, bounds="1-2 operations", timeout=1800))
     # one condition per (focus, client kind, operation): a path costs ~1 s here
     # (six definitions through the wire per handshake), the product of the
     # operations with the state bits did not finish in 10 minutes
